@@ -184,23 +184,48 @@ def reference(ctx):
         ok = len(ol) == 1 and ol[0].value == ln and q.has_guard(ol[0], T.mk_cmp("==", A("oracle_data_length_required"), T.NONE))
         ctx.ob("FRM", S_, "number of labels required defaults to N", ok, "")
         lists = {}
+        views = {}
         for key, fn in (("md", "numpy.mean"), ("md_std", "numpy.std"), ("acc", "numpy.mean"), ("acc_std", "numpy.std")):
             v = q.sub(rdv, const(key)).single_atom()
             isfn = v is not None and v[0] == "call" and v[1] == fn and len(v[2]) >= 1
             ok = isfn and (v[2][0].single_atom() or ("", "", ""))[0] == "loopvar"
             if ok:
                 lists[key] = v[2][0].single_atom()[2]
-            # the statistic is taken over a list filled once per fold in the fold loop; other ways of collecting the folds are not followed
+            elif isfn:
+                # the per-fold values collected another way (a comprehension over the folds, a helper returning both values):
+                # the list as "value at fold POS"
+                sv = q.seq_view(tr, v[2][0])
+                if sv is not None:
+                    views[key] = sv
+                    ok = True
+            # the statistic is taken over a list holding one value per fold
             if ctx.anchor("MD3.calculate_distribution_statistics", "%s is computed from a list filled in the fold loop" % key, ok or not isfn, q.short(q.sub(rdv, const(key)), 100)):
                 ctx.ob("FRM", "MD3.calculate_distribution_statistics", "%s = %s over the folds" % (key, fn.split(".")[1]), ok, "")
-        ok = len(lists) == 4 and lists["md"] == lists["md_std"] and lists["acc"] == lists["acc_std"] and lists["md"] != lists["acc"]
-        ctx.ob("FRM", "MD3.calculate_distribution_statistics", "mean and deviation of the margin density come from one per-fold list, those of the accuracy from another", ok, str(lists))
+        if len(views) == 4:
+            okv = views["md"] == views["md_std"] and views["acc"] == views["acc_std"] and views["md"][0] != views["acc"][0] and views["md"][1] == views["acc"][1]
+            ctx.ob("FRM", "MD3.calculate_distribution_statistics", "mean and deviation of the margin density come from one per-fold list, those of the accuracy from another", okv,
+                   "the per-fold values behind md / md_std (or acc / acc_std) differ, or md and acc are taken from the same values")
+            ctx.ob("MC", "MD3.calculate_distribution_statistics", "one margin density and one accuracy per fold",
+                   T.mentions(views["md"][1], lambda z: (z[0] == "mcall" and z[2] == "split") or (z[0] == "attr" and z[1] == "k")) or views["md"][1] == A("k"), q.short(views["md"][1], 80))
+            v = views["md"][0]
+            sums = {a for a in T.walk(v) if a[0] == "call" and a[1] == "sum" and len(a[2]) == 1}
+            S_list = next(iter(sums))[2][0] if len(sums) == 1 else None
+            sview = q.seq_view(tr, S_list) if S_list is not None else None
+            va = v.single_atom()
+            picked = not (va is not None and va[0] in ("getattr", "sub") and (va[1].single_atom() or ("",))[0] in ("tuple", "new", "call"))
+            if ctx.anchor("MD3.calculate_distribution_statistics", "the per-fold record is taken apart into its margin density", picked, q.short(v, 80)):
+                okf = sview is not None and T.same(v, atom(("call", "sum", (S_list,), ())) / atom(("call", "len", (S_list,), ())))
+                ctx.ob("FRM", "MD3.calculate_distribution_statistics", "margin density of a fold = mean of its samples' signals", okf, q.short(v, 100))
+        else:
+            ok = len(lists) == 4 and lists["md"] == lists["md_std"] and lists["acc"] == lists["acc_std"] and lists["md"] != lists["acc"]
+            ctx.ob("FRM", "MD3.calculate_distribution_statistics", "mean and deviation of the margin density come from one per-fold list, those of the accuracy from another", ok, str(lists))
     kf = [e for e in tr.calls() if e.callee == ("lib", "sklearn.model_selection.KFold")]
     ok = len(kf) == 1 and dict(kf[0].kwargs).get("n_splits") == A("k") and dict(kf[0].kwargs).get("shuffle") == T.TRUE and dict(kf[0].kwargs).get("random_state") is not None and T.is_pure_const(dict(kf[0].kwargs)["random_state"])
     ctx.ob("FRM", "MD3.calculate_distribution_statistics", "k folds with a fixed shuffle seed", ok, "")
     fold_lists = {v[1:] for v in (lists.values() if rdv is not None else [])}
     aps = [e for e in tr.of("localmut") if e.how == "method:append" and e.name in fold_lists]
-    ctx.ob("MC", "MD3.calculate_distribution_statistics", "one margin density and one accuracy per fold", len(aps) == 2, "")
+    if not (rdv is not None and len(views) == 4):
+        ctx.ob("MC", "MD3.calculate_distribution_statistics", "one margin density and one accuracy per fold", len(aps) == 2, "")
     for e in aps:
         if rdv is not None and e.name == lists.get("md", "$")[1:]:
             v = e.value.single_atom()[1][0]
